@@ -7,6 +7,7 @@ package manager
 
 //@ func (*manager.Reconciler).Reconcile
 //@ props C14 C02
+//@ globals apis/pkg/v1
 //@ sweep
 //@ let $p = result field:manager.Reconciler.newPackage
 //@ let $revs = result (v1.PackageRevisionList).GetRevisions
@@ -61,6 +62,7 @@ package manager
 //@   where $o.GetName() == $p.GetCurrentRevision()
 //@   update appliedCurrent = err == nil && $o == pr
 //@   assert [C14:deactivations-persisted-first] deactivationsPersisted
+//@   assert [C14:current-revision-active-under-the-automatic-policy] ($p.GetActivationPolicy() == nil || *$p.GetActivationPolicy() == "Automatic") ==> as($o, v1.PackageRevision).GetDesiredState() == "Active"
 //@   witness n = len($revs)
 //@   witness nolimit = $p.GetRevisionHistoryLimit() == nil
 //@   witness limit = *$p.GetRevisionHistoryLimit()
